@@ -24,7 +24,7 @@ static void sb_add(sbuf_t *b, const char *fmt, ...) {
     memcpy(b->p + b->n, tmp, (size_t) k + 1); b->n += (size_t) k;
 }
 
-typedef struct { unsigned seed; int t; char tmpfile[96]; } job_t;
+typedef struct { unsigned seed; int t; char tmpfile[96]; } job_t;   /* tmpfile: also the stem of <tmpfile>.main / .inc */
 
 static unsigned rnd(unsigned *s) { *s = *s * 1103515245u + 12345u; return (*s >> 16) & 0x7fff; }
 static void word(unsigned *s, char *out, int maxlen) {
@@ -109,6 +109,31 @@ static void compute(const job_t *j, sbuf_t *out) {
             sb_add(out, "aconf=%d:%s\n", n, ev.p ? ev.p : "");
             conf->free(conf); free(ev.p);
         }
+    }
+    /* --- qconfig_parse_file: a private main file that includes a private file (directive scan, splice,
+     *     qfile_load, then the INI parser with section prefixes built by qstrdupf) */
+    {
+        char mainf[128], incf[128];
+        snprintf(mainf, sizeof mainf, "%s.main", j->tmpfile);
+        snprintf(incf, sizeof incf, "%s.inc", j->tmpfile);
+        const char *base = strrchr(incf, '/'); base = base ? base + 1 : incf;
+        FILE *fi = fopen(incf, "w"), *fm = fopen(mainf, "w");
+        if (fi && fm) {
+            for (int i = 0; i < 4; i++) { word(&s, w1, 8); word(&s, w2, 12); fprintf(fi, i == 1 ? "[%s]\n" : "%s = %s\n", w1, w2); }
+            word(&s, w1, 8); word(&s, w2, 8);
+            fprintf(fm, "%s = %s\n@INCLUDE %s\n%s = ${%s}\n", w1, w2, base, w2, w1);
+        }
+        if (fi) fclose(fi);
+        if (fm) fclose(fm);
+        qlisttbl_t *t = qconfig_parse_file(NULL, mainf, '=');
+        sb_add(out, "inifile=");
+        if (t) {
+            qlisttbl_obj_t o; memset(&o, 0, sizeof o);
+            while (t->getnext(t, &o, NULL, false)) sb_add(out, "%s:%s;", o.name, (char *) o.data);
+            t->free(t);
+        } else sb_add(out, "(null)");
+        sb_add(out, "\n");
+        unlink(mainf); unlink(incf);
     }
     /* --- formatted puts into PRIVATE containers (the formatting buffer of DYNAMIC_VSPRINTF) */
     {
